@@ -51,9 +51,9 @@ TECHNIQUE = "explicit-state BFS over session lifecycles of two real workers; exh
 RULE = (
     "BFS (depth 3 quick / 4 thorough, <=3 tokens per history) over open(worker in {A,B}, identity)/close/DELETE/"
     "tick(TTL)/tick(TTL+1)/reap(/drain/shutdown) on two real sticky apps with a shared key; in every new canonical state "
-    "every minted token x {A,B} x identities (4 quick: anonymous, d/alice, d/bob, ''/anonymous; 6 thorough: + d2/alice, d/alice\\0x) x {call, DELETE}; "
+    "sessions are opened by 4 identities (anonymous, d/alice, d/bob, ''/anonymous); every minted token is presented x {A,B} x identities (the same 4 quick; 6 thorough: + d2/alice, d/alice\\0x) x {call, DELETE}; "
     "token mutations (every bit of the sealed bytes, every prefix truncation, char drop/append/replace) in all states of depth <=1 (quick, "
-    "reduced set) / <=2 (thorough, full set under the owner pair, one flip per byte + truncations under every other pair); "
+    "one flip per byte + all truncations under the owner pair, sparse set under the others) / <=2 (thorough, full set under the owner pair, one flip per byte + all truncations under the other identities on the minting worker, sparse set on the other worker); "
     "non-trivial class = (token status, same-worker, same-identity, op, observed outcome)"
 )
 LEVEL_TEXT = (
@@ -77,10 +77,14 @@ TTL = 10.0
 MAX_TOKENS = 3
 
 
+OPEN_IDS: list[str | None] = [None, "alice", "bob", "anonish"]  # identities that open sessions (event alphabet)
+
+
 def ids_for(ctx_or_tier: Any) -> list[str | None]:
+    """Identities under which tokens are *presented*."""
     tier = ctx_or_tier if isinstance(ctx_or_tier, str) else ctx_or_tier.tier
     if tier == "quick":
-        return [None, "alice", "bob", "anonish"]
+        return list(OPEN_IDS)
     return [None, "alice", "bob", "alice@d2", "anonish", "alice-nul"]
 
 
@@ -195,7 +199,7 @@ def build(hist: tuple[Any, ...]) -> World:
 
 
 def make_enabled(tier: str):
-    ids = ids_for(tier)
+    ids = OPEN_IDS
 
     def enabled(w: World) -> list[Any]:
         evs: list[Any] = []
@@ -447,7 +451,7 @@ class Checker:
                             if ctx.quick:
                                 level = "perbyte" if owner else "sparse"
                             else:
-                                level = "full" if owner else "perbyte"
+                                level = "full" if owner else ("perbyte" if wn == t["w"] else "sparse")
                             # variant *names* are positional; the string is re-derived from the token of the
                             # current build (a rebuild re-mints the token with a fresh nonce)
                             names = [n for n, _ in variants_by_name(w.tokens[k]["tok"], level)]
